@@ -8,14 +8,22 @@ pub(crate) fn escape_html_body(s: &str) -> Cow<'_, str> {
     lazy_static! {
         static ref REGEX: Regex = Regex::new("[<\"&]|\\{\\{").unwrap();
     }
-    REGEX.replace_all(s, |caps: &Captures| match &caps[0] {
-        "<" => "&lt;".to_owned(),
-        "\"" => "&quot;".to_owned(),
-        "&" => "&amp;".to_owned(),
-        // (static `{{` would be read back as the start of a binding)
-        "{{" => "&#123;&#123;".to_owned(),
-        _ => unreachable!(),
-    })
+    if !REGEX.is_match(s) {
+        return Cow::Borrowed(s);
+    }
+    let mut ret = String::with_capacity(s.len() + 8);
+    let mut chars = s.chars().peekable();
+    while let Some(c) = chars.next() {
+        match c {
+            '<' => ret.push_str("&lt;"),
+            '"' => ret.push_str("&quot;"),
+            '&' => ret.push_str("&amp;"),
+            // (static `{{` would be read back as the start of a binding)
+            '{' if chars.peek() == Some(&'{') => ret.push_str("&#123;"),
+            c => ret.push(c),
+        }
+    }
+    Cow::Owned(ret)
 }
 
 pub(crate) fn escape_html_quote(s: &str) -> Cow<'_, str> {
